@@ -91,7 +91,12 @@ def make(i, base_seed, tier):
         ops = []
         for _ in range(rng.randint(2, 20)):
             k = rng.choice(["channel", "data_rate", "pa_level", "arc", "ard", "address_length", "dynamic_payloads", "payload_length", "ack",
-                            "power", "listen", "interrupt_config", "open_rx_pipe", "close_rx_pipe", "open_tx_pipe"])
+                            "power", "listen", "interrupt_config", "open_rx_pipe", "close_rx_pipe", "open_tx_pipe", "write"])
+            if k == "write":
+                # not a configuration call, but one that touches CONFIG: rf24_lite wakes the radio / leaves RX mode by itself when it is
+                # asked to transmit - only the power and role bits may change
+                ops.append([k, rng.randint(1, 32)])
+                continue
             if k == "channel":
                 ops.append([k, rng.choice([0, 76, 125, 126, -1, rng.randint(0, 125)])])
             elif k == "data_rate":
@@ -259,6 +264,11 @@ def _cfg(scn, w, res):
                 else:
                     want_exc = "ValueError"
                 drv.close_rx_pipe(pipe)
+            elif k == "write":
+                if ref[0] & 3 != 2:
+                    ref[0] = (ref[0] & 0x7C) | 2
+                drv.write(bytes(op[1]), write_only=True)
+                drv.flush_tx()
             elif k == "open_tx_pipe":
                 addr = bytes.fromhex(op[1])
                 adr[0x10][: len(addr)] = addr
